@@ -298,6 +298,16 @@ def run(spec, ctx):
         for k in range(5):
             for fl in itertools.combinations("aims", k):
                 texts += ["$[?@.a =~ /x.y/%s]" % "".join(fl), "$..[?@ =~ /(a|b)+/%s]" % "".join(fl)]
+        # every letter (and a few digits / pairs) in flag position, over patterns whose meaning a flag can change: whatever the
+        # environment accepts must come back from the string form with the same matches
+        import string
+
+        flagdocs = [[{"a": v} for v in ("abc", "ab c", "ab c#d", "AB C", "ab\nc", "a\nb c", "abc#d", "é", "É", "ab  c", "x")]]
+        for fl in list(string.ascii_letters) + ["0", "1", "xi", "ix", "xx", "im", "ux", "Li", "si", "ms", "ai", "au"]:
+            for pat in ("ab c", "ab c#d", "^b c$", "ab c # d\n", "a.b c", "[a b]c", "é", "\\w c"):
+                for t in ("$[?@.a =~ /%s/%s]" % (pat, fl), "$..[?!(@.a =~ /%s/%s)]" % (pat, fl)):
+                    check_text(ctx, t, flagdocs, "directed", must_compile=False)
+                    ctx.count("regex_literals_with_every_letter_in_flag_position")
         texts += ["^[?@.a]", "^[0].a", "^..a", "$.a | $.b", "$.a & $.b", "$.a | $.b & $.c | ^[0]", "$..a | ^[?@.a] & $..[?@.a == 1]", "a.b", "$[a, b]", "$.~", "$[~, 'a']", "$..~",
                   "$[?# == 'a']", "$[?_.k == @.k]", "$[?@.a == undefined]", "$[?@.a != missing]", "$[?@.a == nil || @.b == None || @.c == True]", "$[?@.a and not @.b or @.c]",
                   "$[1:2]", "$[::2]", "$[::-1]", "$[:1]", "$[-1:]", "$[1::]", "$[0,1:2,*]", "$..[*]", "$..*", "$.*", "$[*]", "$['a']['b']", "$.a[0]['b']", "$..['a','b']", "$", "", "$[?@[?@.a]]",
